@@ -143,7 +143,7 @@ def r43(db, ctx):
     if not okt:
         probs.append(f'tail copies s[{X.show(src_idx, 80)}] into [{X.show(row, 30)}][{X.show(col, 30)}], expected s[j*s + i] into [i][j]')
     rels = G.relations(f, R, s['block'])
-    if not G.holds(rels, 'lt', lambda e: X.canon(e) == X.canon(src_idx), lambda e: 'len(arg1)' in X.canon(e)):
+    if not G.holds(rels, 'lt', lambda e: X.canon(e) == X.canon(src_idx), lambda e: common.is_len_of(e, ('p', 1))):
         probs.append('tail copy is not guarded by j*s + i < len')
     if not (col[0] == 'elem' and norm(col[1][2][0]) == ('k', 0) and norm(col[1][2][1]) == ('k', 32)):
         probs.append('tail does not visit columns 0..32')
@@ -154,7 +154,7 @@ def r43(db, ctx):
         probs.append(f'fill writes [{X.show(row2, 40)}][{X.show(col2, 40)}], expected [k % s][k / s]')
     else:
         k = b['$k']
-        if not (k[0] == 'elem' and 'len(arg1)' in X.canon(k[1][2][0]) and 'DenseMatrix::columns' in X.canon(k[1][2][1]) and 'DenseMatrix::rows' in X.canon(k[1][2][1])):
+        if not (k[0] == 'elem' and common.is_len_of(k[1][2][0], ('p', 1)) and common.is_product_of_calls(k[1][2][1], ['DenseMatrix::columns', 'DenseMatrix::rows'])):
             probs.append(f'fill range is {X.show(k[1], 100)}, expected len .. columns*rows')
     # rebuild through StripedSequence::new
     if not any((f.callee_short(t) or '').endswith('StripedSequence::new') for _, t in f.calls()):
@@ -224,7 +224,7 @@ def r44(db, ctx):
             if pi is None or pv is None or pi != pv:
                 probs.append('placed value is not symbol i of enumerate(seq)')
         else:
-            if not (i[0] == 'elem' and 'len' in X.canon(i[1][2][0]) and 'DenseMatrix::rows' in X.canon(i[1][2][1]) and 'DenseMatrix::columns' in X.canon(i[1][2][1])):
+            if not (i[0] == 'elem' and common.is_len_of(i[1][2][0]) and common.is_product_of_calls(i[1][2][1], ['DenseMatrix::columns', 'DenseMatrix::rows'])):
                 probs.append(f'fill range {X.show(i[1], 80)} is not len .. rows*columns')
     if rows_e is not None and not ceil_div_ok(rows_e):
         probs.append(f'R = {X.show(rows_e, 80)} is not ceil(len / C)')
